@@ -51,9 +51,17 @@ def extract(src_dir=None, feature="", crates=None):
         return out, True
     tmp = out + ".tmp%d" % os.getpid()
     shutil.rmtree(tmp, ignore_errors=True)
-    r = subprocess.run(
-        [os.path.join(VERIF, "sa", "extract.sh"), src_dir, tmp, feature],
-        env=env, capture_output=True, text=True)
+    for attempt in (1, 2):
+        # a second attempt only after a failure: under a cold, heavily loaded start (many checks launched at once) the first compile
+        # has been seen to fail for reasons that have nothing to do with the tree; a tree that does not build fails twice
+        r = subprocess.run(
+            [os.path.join(VERIF, "sa", "extract.sh"), src_dir, tmp, feature],
+            env=env, capture_output=True, text=True)
+        if r.returncode == 0:
+            break
+        if attempt == 1:
+            shutil.rmtree(tmp, ignore_errors=True)
+            time.sleep(2)
     if r.returncode != 0:
         shutil.rmtree(tmp, ignore_errors=True)
         raise ExtractError("extraction failed (tree does not build?):\n" + r.stderr[-4000:])
